@@ -581,4 +581,188 @@ theorem csrToDense_rejects {α} (zero : α) (M : Mat α) (nRows nCols : Nat)
       rw [List.any_eq_true]; exact ⟨x, hx, by simpa using hbig⟩
     simp [h, this]
 
+/-! ### the blockwise joining loop of the parallel transposition -/
+
+theorem writeAt_writeAt {β} (dst : List β) (d : Nat) (a b : List β)
+    (h : d + a.length + b.length ≤ dst.length) :
+    writeAt (writeAt dst d a) (d + a.length) b = writeAt dst d (a ++ b) := by
+  unfold writeAt
+  have h1 : (dst.take d ++ a ++ dst.drop (d + a.length)).take (d + a.length) = dst.take d ++ a := by
+    rw [List.take_append_of_le_length (by simp; omega)]
+    rw [List.take_of_length_le (by simp; omega)]
+  have h2 : (dst.take d ++ a ++ dst.drop (d + a.length)).drop (d + a.length + b.length)
+      = dst.drop (d + a.length + b.length) := by
+    rw [List.drop_append, List.drop_eq_nil_of_le (by simp; omega), List.nil_append,
+      List.drop_drop]
+    congr 1
+    simp only [List.length_append, List.length_take]
+    omega
+  rw [h1, h2]
+  simp only [List.append_assoc, List.length_append]
+  rw [show d + (a.length + b.length) = d + a.length + b.length by omega]
+
+/-- the blockwise copy into a destination equals one whole write, and the
+offset advances by the source length — for every block size `≥ 1` -/
+theorem blockCopyInto_eq {β} (blk : Nat) (hblk : 1 ≤ blk) (dst : List β) (dst0 : Nat)
+    (src : List β) (h : dst0 + src.length ≤ dst.length) :
+    blockCopyInto blk dst dst0 src = (writeAt dst dst0 src, dst0 + src.length) := by
+  unfold blockCopyInto chunks
+  have key : ∀ (fuel r0 : Nat), r0 ≤ src.length → src.length - r0 ≤ fuel →
+      (chunksAux src.length blk fuel r0).foldl
+        (fun st p => (writeAt st.1 st.2 (slice src p.1 p.2), st.2 + (p.2 - p.1)))
+        (writeAt dst dst0 (slice src 0 r0), dst0 + r0)
+      = (writeAt dst dst0 src, dst0 + src.length) := by
+    intro fuel
+    induction fuel with
+    | zero =>
+      intro r0 h1 h2
+      have : r0 = src.length := by omega
+      subst this
+      simp [chunksAux, slice_zero_length]
+    | succ f ih =>
+      intro r0 h1 h2
+      unfold chunksAux
+      by_cases hr : r0 < src.length
+      · simp only [hr, if_true, List.foldl_cons]
+        have hl0 : (slice src 0 r0).length = r0 := by rw [slice_length_le _ h1]; omega
+        have hl1 : (slice src r0 (min src.length (r0 + blk))).length
+            = min src.length (r0 + blk) - r0 := slice_length_le _ (by omega)
+        have hw : writeAt (writeAt dst dst0 (slice src 0 r0)) (dst0 + r0)
+              (slice src r0 (min src.length (r0 + blk)))
+            = writeAt dst dst0 (slice src 0 (min src.length (r0 + blk))) := by
+          have := writeAt_writeAt dst dst0 (slice src 0 r0)
+            (slice src r0 (min src.length (r0 + blk))) (by rw [hl0, hl1]; omega)
+          rw [hl0] at this
+          rw [this, slice_append src (Nat.zero_le _) (by omega)]
+        rw [hw]
+        have e : dst0 + r0 + (min src.length (r0 + blk) - r0)
+            = dst0 + min src.length (r0 + blk) := by omega
+        rw [e]
+        exact ih (min src.length (r0 + blk)) (by omega) (by omega)
+      · have : r0 = src.length := by omega
+        subst this
+        simp [slice_zero_length]
+  have := key src.length 0 (by omega) (by omega)
+  simp only [slice_self, Nat.add_zero] at this
+  rw [← this]
+  congr 2
+  unfold writeAt
+  simp
+
+theorem concatAux_arrays {α} (off : Mat α → Nat) : ∀ (parts : List (Mat α)) (i0 : Nat),
+    (concatAux off parts i0).2.1 = parts.flatMap (·.indices) ∧
+    (concatAux off parts i0).2.2 = parts.flatMap (·.data) := by
+  intro parts
+  induction parts with
+  | nil => intro i0; exact ⟨rfl, rfl⟩
+  | cons P Ps ih =>
+    intro i0
+    simp only [concatAux, List.flatMap_cons]
+    exact ⟨by rw [(ih _).1], by rw [(ih _).2]⟩
+
+theorem joinFold {α} (zero : α) (blk : Nat) (hblk : 1 ≤ blk) :
+    ∀ (parts : List (Mat α)) (doneI : List Nat) (doneD : List α),
+      (∀ P ∈ parts, P.data.length = P.indices.length) → doneD.length = doneI.length →
+      parts.foldl
+        (fun st P => ((blockCopyInto blk st.1 st.2.2 P.indices).1,
+                      (blockCopyInto blk st.2.1 st.2.2 P.data).1,
+                      st.2.2 + P.indices.length))
+        (doneI ++ List.replicate ((parts.map (·.indices.length)).sum) 0,
+         doneD ++ List.replicate ((parts.map (·.indices.length)).sum) zero, doneI.length)
+      = (doneI ++ parts.flatMap (·.indices), doneD ++ parts.flatMap (·.data),
+         doneI.length + (parts.map (·.indices.length)).sum) := by
+  intro parts
+  induction parts with
+  | nil => intro doneI doneD _ _; simp
+  | cons P Ps ih =>
+    intro doneI doneD hp hd
+    have hP := hp P (by simp)
+    simp only [List.map_cons, List.sum_cons, List.foldl_cons, List.flatMap_cons]
+    rw [blockCopyInto_eq blk hblk _ _ P.indices (by simp),
+      blockCopyInto_eq blk hblk _ _ P.data (by simp; omega)]
+    simp only
+    rw [writeAt_padded, ← hd, writeAt_padded, hP]
+    have e : P.indices.length + (Ps.map (·.indices.length)).sum - P.indices.length
+        = (Ps.map (·.indices.length)).sum := by omega
+    rw [e]
+    have := ih (doneI ++ P.indices) (doneD ++ P.data) (fun Q hQ => hp Q (by simp [hQ]))
+      (by simp [hd, hP])
+    rw [List.length_append] at this
+    rw [hd]
+    rw [this]
+    simp only [List.append_assoc, Nat.add_assoc]
+
+/-- **the joining loop of the parallel transposition with its block
+addressing** equals the plain concatenation, for every block size `≥ 1` -/
+theorem joinBlocked_eq {α} (zero : α) (blk : Nat) (hblk : 1 ≤ blk) (parts : List (Mat α))
+    (hp : ∀ P ∈ parts, P.data.length = P.indices.length) :
+    joinBlocked zero blk parts = joinParts parts := by
+  unfold joinBlocked
+  have := joinFold zero blk hblk parts [] [] hp rfl
+  simp only [List.nil_append, List.length_nil, Nat.zero_add] at this
+  simp only
+  rw [this]
+  unfold joinParts
+  simp only
+  rw [(concatAux_arrays _ parts 0).1, (concatAux_arrays _ parts 0).2]
+
+theorem mapM_ok_mem {β γ ε} (f : β → Except ε γ) : ∀ (l : List β) (ys : List γ),
+    l.mapM f = .ok ys → ∀ y ∈ ys, ∃ x ∈ l, f x = .ok y := by
+  intro l
+  induction l with
+  | nil =>
+    intro ys h y hy
+    simp only [List.mapM_nil, pure, Except.pure, Except.ok.injEq] at h
+    subst h; simp at hy
+  | cons a as ih =>
+    intro ys h y hy
+    rw [List.mapM_cons] at h
+    cases hfa : f a with
+    | error e => rw [hfa] at h; cases h
+    | ok b =>
+      rw [hfa] at h
+      cases hrest : as.mapM f with
+      | error e => rw [hrest] at h; cases h
+      | ok bs =>
+        rw [hrest] at h
+        simp only [bind, Except.bind, pure, Except.pure, Except.ok.injEq] at h
+        subst h
+        rcases List.mem_cons.mp hy with hy | hy
+        · subst hy; exact ⟨a, by simp, hfa⟩
+        · obtain ⟨x, hx, hfx⟩ := ih bs hrest y hy
+          exact ⟨x, by simp [hx], hfx⟩
+
+theorem transposeOnDisk_lengths {α} (M : Mat α) (imax : Nat) (sl : Option (Nat × Nat))
+    (B : Budget) (P : Mat α) (h : transposeOnDisk M imax sl B = .ok P) :
+    P.data.length = P.indices.length := by
+  unfold transposeOnDisk at h
+  cases hc : calcIndptr M.indices imax sl B.loCount with
+  | error e => rw [hc] at h; cases h
+  | ok r =>
+    rw [hc] at h
+    simp only [bind, Except.bind, pure, Except.pure, Except.ok.injEq] at h
+    subst h
+    simp
+
+/-- the parallel transposition with the blockwise joining loop is the parallel
+transposition — for every block size `≥ 1`, every matrix, budget and worker
+count (also when it fails) -/
+theorem transposeV2Blocked_eq {α} (zero : α) (M : Mat α) (imax nProc : Nat) (B : Budget)
+    (blk : Nat) (hblk : 1 ≤ blk) :
+    transposeV2Blocked zero M imax nProc B blk = transposeV2 M imax nProc B := by
+  unfold transposeV2Blocked transposeV2
+  by_cases hz : (ceilDiv imax nProc == 0) = true
+  · simp [hz]
+  · simp only [hz, Bool.false_eq_true, if_false]
+    cases hm : (chunks imax (ceilDiv imax nProc)).mapM
+        (fun sl => transposeOnDisk M imax (some sl) B) with
+    | error e => rfl
+    | ok parts =>
+      simp only [bind, Except.bind, pure, Except.pure]
+      congr 1
+      apply joinBlocked_eq zero blk hblk
+      intro P hP
+      obtain ⟨sl, _, hsl⟩ := mapM_ok_mem _ _ _ hm P hP
+      exact transposeOnDisk_lengths M imax (some sl) B P hsl
+
 end CTM.Sparse
